@@ -22,6 +22,59 @@ def run(rep, prog, tier):
     r2(rep, prog)
     r3(rep, prog)
     r4(rep, prog)
+    r6(rep, prog)
+
+
+def r6(rep, prog):
+    """the footer reader is total on short files: the length guard covers every fixed-size read
+    from the end of the file"""
+    R = "C20-R6"
+    rep.rule(R, "footer extraction is total on truncated files: in Footer::extract_footer every FileSlice::slice_from_end(n) with a constant n is dominated by a length guard `len < k` with k >= n that returns an error (FileSlice::slice_from_end(n) panics when the file is shorter than n); the variable-size footer read is guarded by a comparison with the computed total size")
+    fid = FP + "Footer::extract_footer"
+    body = get_body(rep, prog, R, fid)
+    if body is None:
+        return
+    LEN = prog.names(r"HasLen>::len$|HasLen::len$")
+    SFE = {"tantivy_common::file_slice::FileSlice::slice_from_end"}
+    # guards: `_c = Lt(len(..), const K)` feeding a switch whose taken arm is an error exit
+    guards = []
+    for bi in body.normal_blocks():
+        for st in body.stmts(bi):
+            if st.get("r") == "bin" and st.get("op") == "Lt" and len(st["o"]) == 2:
+                k = None
+                if "v" in st["o"][1]:
+                    k = int(st["o"][1]["v"])
+                elif op_local(st["o"][1]) is not None:
+                    tk = trace_back(body, op_local(st["o"][1]))
+                    if tk and tk[-1][0] == "const":
+                        try:
+                            k = int(tk[-1][1])
+                        except (TypeError, ValueError):
+                            k = None
+                src = trace_back(body, op_local(st["o"][0])) if op_local(st["o"][0]) is not None else []
+                if k is not None and src and src[-1][0] == "call" and src[-1][1] in LEN:
+                    guards.append((bi, k))
+    calls = calls_to(prog, body, SFE)
+    rep.floor(R, "fixed-size reads from the end of the file in extract_footer", len(calls), 1)
+    dom = body.dominators()
+    for b, t in calls:
+        a = t["args"][1]
+        n = None
+        if "v" in a:
+            n = int(a["v"])
+        elif op_local(a) is not None:
+            tr = trace_back(body, op_local(a))
+            if tr and tr[-1][0] == "const":
+                try:
+                    n = int(tr[-1][1])
+                except (TypeError, ValueError):
+                    n = None
+        if not rep.check(n is not None, R, "slice_from_end is called with a constant size", "n = %s" % n, "cannot establish the size read from the end of the file", site=site(body, b)):
+            continue
+        ks = [k for (gb, k) in guards if gb in dom.get(b, ())]
+        rep.check(bool(ks) and max(ks) >= n, R, "the length guard covers the %d-byte trailer read" % n, "dominating guard(s) `len < %s`" % ks,
+                  "Footer::extract_footer reads the last %d bytes of the file but only rejects files shorter than %s bytes: a segment file truncated to %s..%d bytes makes open_read and validate_checksum panic "
+                  "instead of reporting the damage" % (n, max(ks) if ks else "?", max(ks) if ks else "?", n - 1), site=site(body, b))
 
 
 def r1(rep, prog):
